@@ -64,7 +64,7 @@ func (tenants) Meta() core.EngineMeta {
 		Rule:       "N in 2..8 (thorough: up to 64) tenants, each a real goroutine with its own Demuxer on its own reference stream or its own Muxer with its own history, share only what the package shares: the bytes pool, here backed by SimPool through the verif hook (LIFO/FIFO/seeded-pick/never-reuse; buffers poisoned on put and on get). The tenant scheduler releases exactly one goroutine at a time, switching at API-call boundaries and at the pool's before-get / after-get / before-put yield points according to the scenario (round-robin, API-only, switch-after-get, switch-before-put, long runs, seeded). Every returned Packet/DemuxerData is deep-dumped at delivery and re-compared by its owner after each of its later steps and at the end; WriteData payloads likewise; each tenant's result sequence must equal its solo run with a never-reusing private pool; pool bookkeeping must balance. One run in eight is re-executed by the -race build: hand-offs are raw pipe syscalls invisible to the detector, so any conflicting access by two tenants is reported whatever the timing; a report with a go-astits/go-astikit frame is a violation. distinct = (tenant kinds, N, pool policy, scheduler mode, reuse count class, switches-at-pool-sites class); non-trivial = at least one pooled buffer was reused across tenants.",
 		Real:       []string{"astits.Demuxer", "astits.Muxer", "everything below them", "Go race detector (second pass)"},
 		Stub:       []string{"SimPool (stub of sync.Pool behind the verif hook)", "tenant scheduler (baton hand-off)", "refts reference multiplexer", "per-tenant readers / writers"},
-		FaultKinds: []string{"buffer-reuse-across-tenants", "poison", "switch-after-get", "switch-before-put", "switch-at-api", "race-pass"},
+		FaultKinds: []string{"switch-at-api", "race-pass"}, // pool-related kinds are reach probes: whether and where the library uses its pool is its own business
 		Assumptions: []string{
 			"preemption inside library code other than at the pool points is not simulated; what it could expose (unsynchronised shared memory) is what the happens-before-blind race pass reports without needing the interleaving to occur",
 			"instances are never shared between goroutines (the library does not promise that)",
@@ -457,14 +457,14 @@ func execTenants(sc *TenantScenario, out *core.Outcome) {
 	tr := runTenants(sc, out.Log)
 	out.Steps = int64(tr.steps)
 	if tr.pool.Reuses > 0 {
-		out.Fire("buffer-reuse-across-tenants")
-		out.Fire("poison")
+		out.Probe("buffer-reuse-across-tenants")
+		out.Probe("poison")
 	}
 	if tr.switches[sched.SiteAfterGet] > 0 {
-		out.Fire("switch-after-get")
+		out.Probe("switch-after-get")
 	}
 	if tr.switches[sched.SiteBeforePut] > 0 {
-		out.Fire("switch-before-put")
+		out.Probe("switch-before-put")
 	}
 	if tr.switches[sched.SiteAPI] > 0 {
 		out.Fire("switch-at-api")
